@@ -68,4 +68,15 @@ def handleMessage (acl : Acl) : Decoded → SyncOutcome
   | .heads [] => .load []
   | .heads hs => syncHeads acl hs []
 
+/-- the listener loop itself: it handles the messages one after the other; `stopOnError` = the loop
+leaves when handling a message reports an error (it does not, in the Go text of this run: tied by
+`Gen.listenerExitsOnError`, regenerated from the loops' statements on every run). Returns the outcome
+of every message that was handled. -/
+def runListener (stopOnError : Bool) (acl : Acl) : List Decoded → List SyncOutcome
+  | [] => []
+  | m :: ms =>
+    match handleMessage acl m with
+    | .err => if stopOnError then [.err] else .err :: runListener stopOnError acl ms
+    | o => o :: runListener stopOnError acl ms
+
 end Orbit
